@@ -24,7 +24,8 @@ OnlyBase(S)  == IF Profile = "base"  THEN S ELSE {}
 OnlyHoles(S) == IF Profile = "holes" THEN S ELSE {}
 
 V == VPts(N)
-P1 == Paths1(N)
+NotBig(S) == IF Profile = "big" THEN {} ELSE S
+P1 == NotBig(Paths1(N))
 P2 == ExtendPaths(N, P1)
 P3 == ExtendPaths(N, P2)
 P4 == ExtendPaths(N, P3)
@@ -35,14 +36,14 @@ R4 == RingsOf(P4)
 R5 == RingsOf(P5)
 R6 == RingsOf(P6)
 
-Points == {Pt(c) : c \in EPts(N)}
+Points == NotBig({Pt(c) : c \in EPts(N)})
 Lines  == {Ln(s[1], s[2]) : s \in P1}
 LineStrings ==
 OnlyBase({LS(q) : q \in CanonOpen(P2)} \cup {LS(Rev(q)) : q \in Sample(CanonOpen(P2), 7, 3)}
     \cup {LS(q) : q \in Sample(CanonOpen(P3), 5, 1)}
     \cup {LS(q) : q \in R3 \cup Sample(R4, 2, 0)})
 Polygons == OnlyBase({Poly(r, <<>>) : r \in R3 \cup R4 \cup R5 \cup R6})
-RectsOK == {r \in {Rc(a, b) : a \in V, b \in V} : r.a[1] < r.b[1] /\ r.a[2] < r.b[2]}
+RectsOK == NotBig({r \in {Rc(a, b) : a \in V, b \in V} : r.a[1] < r.b[1] /\ r.a[2] < r.b[2]})
 Triangles == OnlyBase({Tri(r[1], r[2], r[3]) : r \in R3} \cup {Tri(r[1], r[3], r[2]) : r \in Sample(R3, 3, 1)})
 EP == EPts(N)
 MultiPoints ==
@@ -96,8 +97,34 @@ Holed1 == OnlyHoles(UNION {{Poly(e, <<Rev(h)>>) : h \in HolesOf[e]} : e \in Shel
 Holed2 == OnlyHoles(UNION {UNION {{Poly(e, <<Rev(h1), h2>>) :
                           h2 \in {h2 \in HolesOf[e] \cap R3 : LexLess(h1[1], h2[1]) /\ ValidHolePair(e, h1, h2)}}
                         : h1 \in Sample(HolesOf[e] \cap R3, 3, 0)} : e \in {e \in Shells : Len(e) # 4}})
+\* Profile "big" (N = 10, coordinates 0..40): operands with 10 - 50 segments, so that the segment R-trees of relate have
+\* several levels; all octilinear and valid, hence inside the witness-lattice theorem.
+OnlyBig(S) == IF Profile = "big" THEN S ELSE <<>>
+Sq4(x, y, s) == << <<x, y>>, <<x + s, y>>, <<x + s, y + s>>, <<x, y + s>>, <<x, y>> >>
+RECURSIVE StairSteps4(_, _)
+StairSteps4(n, k) == IF k > n THEN <<>> ELSE << <<4 * (n - k + 1), 4 * k>>, <<4 * (n - k), 4 * k>> >> \o StairSteps4(n, k + 1)
+StairRing4(n) == << <<0, 0>>, <<4 * n, 0>> >> \o StairSteps4(n, 1) \o << <<0, 0>> >>
+RECURSIVE CombTeeth(_, _)
+CombTeeth(n, i) == IF i < 0 THEN <<>>
+                   ELSE << <<8 * i + 4, 4>>, <<8 * i + 4, 36>>, <<8 * i, 36>>, <<8 * i, 4>> >> \o CombTeeth(n, i - 1)
+CombRing(n) == << <<0, 0>>, <<8 * n - 4, 0>>, <<8 * n - 4, 4>> >> \o Tail(CombTeeth(n, n - 1)) \o << <<0, 0>> >>
+ZigZag(n) == [i \in 1 .. n + 1 |-> <<4 * (i - 1), IF i % 2 = 1 THEN 16 ELSE 20>>]
+Straight(n, y) == [i \in 1 .. n + 1 |-> <<4 * (i - 1), y>>]
+BigCat == OnlyBig(<<
+    Poly(StairRing4(10), <<>>), Poly(StairRing4(10), << Rev(Sq4(4, 4, 4)), Rev(Sq4(12, 4, 8)), Rev(Sq4(4, 12, 4)) >>),
+    Poly(CombRing(5), <<>>), Poly(Sq4(0, 0, 40), << Rev(Sq4(4, 4, 8)), Rev(Sq4(20, 4, 12)), Rev(Sq4(4, 20, 12)), Rev(Sq4(24, 24, 8)) >>),
+    LS(ZigZag(10)), LS(Straight(10, 20)), LS(Straight(10, 4)), LS(StairRing4(6)),
+    MLS([i \in 1 .. 12 |-> << <<4 * ((i - 1) % 4) * 2, 8 * ((i - 1) \div 4) + 4>>, <<4 * ((i - 1) % 4) * 2 + 4, 8 * ((i - 1) \div 4) + 8>> >>]),
+    MPoly([i \in 1 .. 9 |-> [ext |-> Sq4(12 * ((i - 1) % 3) + 2 * 2, 12 * ((i - 1) \div 3) + 4, 4), holes |-> <<>>]]),
+    MPt([i \in 1 .. 30 |-> <<2 * ((i * 7) % 21), 2 * ((i * 11) % 19)>>]),
+    GC(<< Poly(Sq4(0, 0, 8), <<>>), Poly(Sq4(12, 12, 12), << Rev(Sq4(16, 16, 4)) >>), Poly(Sq4(28, 0, 12), <<>>) >>),
+    Pt(<<20, 20>>), Pt(<<4, 36>>), Pt(<<40, 0>>), Pt(<<6, 6>>), Ln(<<0, 40>>, <<40, 0>>), Ln(<<0, 20>>, <<40, 20>>),
+    Rc(<<4, 4>>, <<36, 36>>), Rc(<<16, 0>>, <<24, 40>>), Tri(<<0, 0>>, <<40, 0>>, <<0, 40>>), Tri(<<40, 40>>, <<40, 0>>, <<0, 40>>)
+>>)
+
 \* TLC cannot order records of different shapes inside one set: go through sequences per type
 Cat == TLCEval(
+        IF Profile = "big" THEN BigCat ELSE
         IF Profile = "base"
         THEN SetToSeq(Points) \o SetToSeq(Lines) \o SetToSeq(LineStrings) \o SetToSeq(Polygons)
              \o SetToSeq(RectsOK) \o SetToSeq(Triangles) \o SetToSeq(MultiPoints)
@@ -157,6 +184,16 @@ BBoxOf(g) == LET VV == {s[1] : s \in Segs(g)} \cup {s[2] : s \in Segs(g)} IN
 BoxesDisjoint(a, b) == LET p == BBoxOf(a)  q == BBoxOf(b) IN p[3] < q[1] \/ q[3] < p[1] \/ p[4] < q[2] \/ q[4] < p[2]
 ShortcutMatrix(a, b) == "FF" \o DimChar(Dim(a)) \o "FF" \o DimChar(BDim(a)) \o DimChar(Dim(b)) \o DimChar(BDim(b)) \o "2"
 ShortcutRefines == (ib > 0 /\ BoxesDisjoint(Cat[ia], Cat[ib])) => ShortcutMatrix(Cat[ia], Cat[ib]) = IMofMaps(CatPos[ia], CatPos[ib], F)
+
+\* The catalogue lives in the universe of the witness-lattice theorem: vertices of curves and areas on multiples of 4,
+\* every segment horizontal, vertical or diagonal; points on the even lattice.
+RECURSIVE InUniverse(_)
+InUniverse(g) ==
+    CASE g.t = "Point" -> g.c \in EPts(N)
+      [] g.t = "MultiPoint" -> \A i \in DOMAIN g.cs : g.cs[i] \in EPts(N)
+      [] g.t = "GeometryCollection" -> \A i \in DOMAIN g.gs : InUniverse(g.gs[i])
+      [] OTHER -> \A sg \in Segs(g) : sg[1] \in VPts(N) /\ sg[2] \in VPts(N) /\ (sg[1] = sg[2] \/ Octi(sg[1], sg[2]))
+UniverseOK == InUniverse(Cat[ia])
 
 \* Lemmas of the oracle itself, checked on every generated state: EE is always 2, and the
 \* matrix of (b, a) is the transpose of the matrix of (a, b).
